@@ -137,6 +137,12 @@ def check_one(args):
             for k, _ in goals:
                 kk[k.split('/')[-1]] = kk.get(k.split('/')[-1], 0) + 1
             out['spec_kinds'] = kk
+        if opts.get('lost_probe') and out.get('impl_feasible') and sp:
+            import lostprobe
+            if lostprobe.probe_ok(prog):
+                out['lost_probed'] = 1
+                out['lost'] = lostprobe.probe(z3, compare, prog, A, ma, sp, seed=opts.get('seed', 0) * 100003 + idx,
+                                              tries=opts.get('lost_tries', 3))
     except Exception as e:  # harness failure: reported, never silently dropped
         out['error'] = ''.join(traceback.format_exception_only(type(e), e))[-400:] + traceback.format_exc()[-1200:]
     return out
